@@ -5,7 +5,7 @@ from . import C08
 ID = "C09"
 MODULE = "DrandProofs.C09"
 THEOREMS = ["Drand.DKG." + t for t in [
-    "c09_signed_by_listed", "c09_role", "c09_unlisted_key_rejected", "c09_terms_covered", "c09_seed_and_keys_not_covered",
+    "c09_signed_by_listed", "c09_role", "c09_execute_needs_leader", "c09_unlisted_key_rejected", "c09_terms_covered", "c09_seed_and_keys_not_covered",
     "c09_substitution_counterexample", "c09_member_uses_group_keys_corrected"]]
 TRUSTED = C08.TRUSTED + ["IdealSig: a BLS identity signature verifies under key k on message m iff it was made with k on m (the harness signs every packet itself with a real key over a message it chooses, and tells the model which)",
                          "messageForSigning is compared as a list of typed fields, i.e. modulo the byte-level framing of the concatenation"]
